@@ -198,6 +198,25 @@ CHECKS = {
 NOT_YET = {}
 
 
+# workloads added after the third round of independently seeded changes (DESIGN.md §9.5)
+ROUND3 = {
+    "C01": " Colourings use None/False/()/mixed-type colours.",
+    "C02": " Every permutation of length 4-5 is asked for on handles whose cache holds only 0-3 levels (mesh classes are not prefix closed).",
+    "C03": " Requirement arguments are also given reversed, repeated and as one-shot iterables.",
+    "C06": " Index collections are given in any order and container.",
+    "C07": " One thread may empty the class registry (Av.clear_cache) while the others create handles from equal bases.",
+    "C09": " Equal-hash keys (-1/-2, 2^61-1/0) are standardised back to back through the memo.",
+    "C10": " remove() is also driven with negative (tuple-style) indices.",
+    "C11": " Distribution tools are also run on classes given by mesh patterns that have an empty level below non-empty ones.",
+    "C12": " dihedral() is asked about every affine map i->a+d*i (mod n), d a unit, n<=24 (40).",
+    "C14": " Long words (6-14 letters, staircases favoured): factors read off the word, near misses, sub-permutations of perm(w).",
+    "C15": " Bases with the empty permutation, repeated elements and lengths not grouped are included.",
+    "C16": " Bases are also listed in every other order and mixed with elements of length 1-2.",
+    "C17": " auto_bisc runs (3 quick / 10 thorough) on properties chosen so that each retry branch of the driver is taken; the branch counters are required.",
+    "C20": " Data-set names containing 'good', 'bad', 'len3', '.json' are used.",
+}
+
+
 def main():
     props = [json.loads(l) for l in open(os.path.join(HERE, "properties.jsonl"))]
     checks, na = [], []
@@ -212,7 +231,7 @@ def main():
                 "evidence_file": f"/verif/evidence/{pid}.json",
                 "replay_cmd_template": f"./check {pid} --replay {{path}}",
                 "engine": "vf",
-                "level_claimed": {"category": "exploration", "text": c["text"], "design_ref": c["ref"]},
+                "level_claimed": {"category": "exploration", "text": c["text"] + ROUND3.get(pid, ""), "design_ref": c["ref"]},
                 "level_note": c["note"],
                 "technique": c["technique"],
             })
